@@ -1,5 +1,5 @@
 #!/bin/bash
-# usage: tools/confirm_seed.sh <seeded-dir> [demo-package-dir]
+# usage: [DEMO_TAGS=verif] [DEMO_RACE=-race] tools/confirm_seed.sh <seeded-dir> [demo-package-dir]
 # confirms, in a scratch worktree of /repo, that the change compiles, passes the pinned tests, and that its demonstration
 # fails with it and passes without it.  The worktree is removed afterwards.
 d=/verif/seeded/$1; pkg=${2:-.}
@@ -13,8 +13,8 @@ fails=$(go test -vet=off -count=1 -timeout 25m ./... 2>&1 | grep -E "^--- FAIL" 
 [ -z "$fails" ] && echo "suite: passes (known-bad TestExecCmd_EchoFooBar aside)" || { echo "suite FAILS: $fails"; }
 demo=$(ls $d/zz_demo*_test.go $d/demo*_test.go 2>/dev/null | head -1)
 cp $demo $pkg/zz_demo_test.go
-with=$(go test -vet=off -tags "$DEMO_TAGS" -run TestDemo -count=1 -timeout 10m ./$pkg 2>&1 | tail -1)
+with=$(go test -vet=off $DEMO_RACE -tags "$DEMO_TAGS" -run TestDemo -count=1 -timeout 10m ./$pkg 2>&1 | tail -1)
 git apply -R $d/patch.diff
-without=$(go test -vet=off -tags "$DEMO_TAGS" -run TestDemo -count=1 -timeout 10m ./$pkg 2>&1 | tail -1)
+without=$(go test -vet=off $DEMO_RACE -tags "$DEMO_TAGS" -run TestDemo -count=1 -timeout 10m ./$pkg 2>&1 | tail -1)
 echo "demo with change:    $with"
 echo "demo without change: $without"
